@@ -885,7 +885,9 @@ RULE = ("one case = one whole history on n fresh BinaryNode objects (user subcla
         "(parent/children/left/right/del/sort) x every argument tuple over {None, every node, a non-node} "
         "(lists and tuples of length 0,1,2,3 and a non-list) x fault in {none,pre,post}; list-sharing probes: every pair of ways "
         "two nodes get an empty slot list installed x in-place writes; random part: 4-8 nodes, 1-40 ops, "
-        "~25% faults, ~20% invalid arguments; non-trivial = n>=2 and at least one op names a node argument; "
+        "~25% faults, ~20% invalid arguments; every case additionally compares, on the final state, inorder_iter from one "
+        "node and is_leaf of every node with the model's read-back of its final store (BinStore.btreeOf, the bridge to "
+        "C04/C12: order-exact); non-trivial = n>=2 and at least one op names a node argument; "
         "distinct = distinct protocol lines")
 EXHAUSTIVE = {
     "quick": "all 49 binary forests reachable on <=3 labelled nodes (1+5+43) x every op x every argument tuple incl. invalid x every fault point: every single transition is compared",
